@@ -53,15 +53,31 @@ Init == /\ cfg \in Configs /\ kind \in ConsKinds /\ now = 0 /\ lock = 0 /\ close
         /\ tokS = 0 /\ sigS = {} /\ rpc = "top" /\ tch = FALSE
         /\ apc = [g \in Gs |-> "idle"] /\ aid = [g \in Gs |-> 0] /\ aleft = [g \in Gs |-> AddProgs[g]] /\ nextId = 1
         /\ cpc = [k \in Ks |-> "idle"] /\ chelp = [k \in Ks |-> 0]
-        /\ cons = "ready" /\ counted = {} /\ cov = {}
+        /\ cons = (IF kind = "slow" THEN "parked" ELSE "ready") /\ counted = {} /\ cov = {}
         /\ c = CResetCfg(cfg[1], cfg[2], cfg[3])
 
 RunAlive == rpc \notin {"exited", "done"}
 Helpers == (IF RunAlive THEN 1 ELSE 0) + tokS + Cardinality(sigS)
 RctxDone == cancelled \/ rpc \in {"ret", "exited", "done"}
+InFlight == Cardinality({g \in Gs : apc[g] # "idle"}) + Cardinality({k \in Ks : cpc[k] \notin {"idle", "done"}})
+(* AtRest: no step of Internal is enabled (written out; AtRestDef checks it against ENABLED) *)
+AtRest == /\ \A g \in Gs : apc[g] # "body" /\ (apc[g] = "called" => lock # 0)
+          /\ ~(tokS > 0 /\ closeCh)
+          /\ (rpc \in {"top", "input", "timer"} => lock # 0) /\ rpc \notin {"ret", "exited"}
+          /\ (rpc = "select" => ~(cancelled \/ closeCh \/ tokS > 0 \/ (tch /\ tstate = "fired")))
+          /\ (sigS # {} => cons # "ready" /\ ~RctxDone)
+          /\ \A k \in Ks : /\ cpc[k] # "unlocked" /\ (cpc[k] = "wait" => wg # 0)
+                            /\ (cpc[k] = "called" => CloseFix /\ lock # 0) /\ (cpc[k] = "beforeLock" => lock # 0)
+(* the harness observes at rest; in the model the observation is taken as soon as it is informative *)
+QuiescentEv == [ev |-> "quiescent", recv |-> (cons = "ready")]
+StuckEv == [ev |-> "stuck", n |-> InFlight, run |-> (cancelled \/ closeCh) /\ rpc # "done"]
+ObsPending == /\ UseMonitor /\ AtRest
+              /\ \/ InFlight = 0 /\ CNext(c, QuiescentEv) # c
+                 \/ (InFlight > 0 \/ ((cancelled \/ closeCh) /\ rpc # "done")) /\ CNext(c, StuckEv) # c
+
 
 (* ---------------- Add - coalescing.go:229-242 ---------------- *)
-AddCall(g) == /\ apc[g] = "idle" /\ aleft[g] > 0
+AddCall(g) == /\ apc[g] = "idle" /\ aleft[g] > 0 /\ ~ObsPending
               /\ (AdvIdleOnly => now + M <= MaxNow)
               /\ apc' = [apc EXCEPT ![g] = "called"] /\ aid' = [aid EXCEPT ![g] = nextId] /\ nextId' = nextId + 1
               /\ Obs([ev |-> "add_call", n |-> nextId])
@@ -135,7 +151,7 @@ SigExit(x) == /\ x \in sigS /\ RctxDone /\ sigS' = sigS \ {x} /\ wg' = wg - 1
                              rpc, tch, apc, aid, aleft, nextId, cpc, chelp, cons, counted, cov, c>>
 
 (* ---------------- Close - coalescing.go:244-255 ---------------- *)
-CloseCall(k) == /\ cpc[k] = "idle" /\ cpc' = [cpc EXCEPT ![k] = "called"] /\ Obs([ev |-> "close_call"])
+CloseCall(k) == /\ cpc[k] = "idle" /\ ~ObsPending /\ cpc' = [cpc EXCEPT ![k] = "called"] /\ Obs([ev |-> "close_call"])
                 /\ UNCHANGED <<cfg, kind, now, lock, closed, closeCh, cancelled, wg, pendSet, hasTimer, tstate, deadline, curDur, tokS, sigS,
                                rpc, tch, apc, aid, aleft, nextId, chelp, cons, counted, cov>>
 (* as written: CAS + close(closeCh); then Lock; wg.Wait; Unlock *)
@@ -150,9 +166,11 @@ CloseLock(k) == /\ ~CloseFix /\ cpc[k] = "beforeLock" /\ lock = 0 /\ lock' = k /
                                rpc, tch, apc, aid, aleft, nextId, chelp, cons, counted, cov, c>>
 (* repaired: closed/closeCh inside a short critical section, wg.Wait outside the lock *)
 CloseCrit(k) == /\ CloseFix /\ cpc[k] = "called" /\ lock = 0
-                /\ closed' = TRUE /\ closeCh' = TRUE /\ cpc' = [cpc EXCEPT ![k] = "wait"]
+                /\ IF Variant = "close2early" /\ closed
+                     THEN cpc' = [cpc EXCEPT ![k] = "unlocked"] /\ chelp' = [chelp EXCEPT ![k] = Helpers] /\ UNCHANGED <<closed, closeCh>>
+                     ELSE closed' = TRUE /\ closeCh' = TRUE /\ cpc' = [cpc EXCEPT ![k] = "wait"] /\ UNCHANGED chelp
                 /\ UNCHANGED <<cfg, kind, now, lock, cancelled, wg, pendSet, hasTimer, tstate, deadline, curDur, tokS, sigS,
-                               rpc, tch, apc, aid, aleft, nextId, chelp, cons, counted, cov, c>>
+                               rpc, tch, apc, aid, aleft, nextId, cons, counted, cov, c>>
 CloseWait(k) == /\ cpc[k] = "wait" /\ wg = 0
                 /\ lock' = (IF lock = k THEN 0 ELSE lock) /\ cpc' = [cpc EXCEPT ![k] = "unlocked"] /\ chelp' = [chelp EXCEPT ![k] = Helpers]
                 /\ UNCHANGED <<cfg, kind, now, closed, closeCh, cancelled, wg, pendSet, hasTimer, tstate, deadline, curDur, tokS, sigS,
@@ -166,28 +184,26 @@ Internal == \/ \E g \in Gs : AddBody(g) \/ AddRet(g)
             \/ TokExit \/ RunTop \/ RunSelect \/ RunInput \/ RunTimer \/ RunExit \/ RunRet
             \/ \E x \in sigS : Deliver(x) \/ SigExit(x)
             \/ \E k \in Ks : CloseSignal(k) \/ CloseLock(k) \/ CloseCrit(k) \/ CloseWait(k) \/ CloseRet(k)
-InFlight == Cardinality({g \in Gs : apc[g] # "idle"}) + Cardinality({k \in Ks : cpc[k] \notin {"idle", "done"}})
-AtRest == ~ENABLED Internal
-
-Adv == /\ now < MaxNow /\ (AdvIdleOnly => AtRest)
+AtRestDef == AtRest <=> ~ENABLED Internal
+Adv == /\ now < MaxNow /\ (AdvIdleOnly => AtRest) /\ ~ObsPending
        /\ now' = now + 1
        /\ tstate' = (IF tstate = "armed" /\ deadline <= now + 1 THEN "fired" ELSE tstate)
        /\ Obs([ev |-> "adv", now |-> now + 1])
        /\ UNCHANGED <<cfg, kind, lock, closed, closeCh, cancelled, wg, pendSet, hasTimer, deadline, curDur, tokS, sigS,
                       rpc, tch, apc, aid, aleft, nextId, cpc, chelp, cons, counted, cov>>
-Cancel == /\ AllowCancel /\ ~cancelled /\ cancelled' = TRUE /\ Obs([ev |-> "cancel"])
+Cancel == /\ AllowCancel /\ ~cancelled /\ ~ObsPending /\ cancelled' = TRUE /\ Obs([ev |-> "cancel"])
           /\ UNCHANGED <<cfg, kind, now, lock, closed, closeCh, wg, pendSet, hasTimer, tstate, deadline, curDur, tokS, sigS,
                          rpc, tch, apc, aid, aleft, nextId, cpc, chelp, cons, counted, cov>>
-Take == /\ cons = "parked" /\ cons' = "ready"
+Take == /\ cons = "parked" /\ ~ObsPending /\ cons' = "ready"
         /\ UNCHANGED <<cfg, kind, now, lock, closed, closeCh, cancelled, wg, pendSet, hasTimer, tstate, deadline, curDur, tokS, sigS,
                        rpc, tch, apc, aid, aleft, nextId, cpc, chelp, counted, cov, c>>
 (* observation points of the harness: nothing can move *)
 Quiescent == /\ UseMonitor /\ AtRest /\ InFlight = 0
-             /\ c' = CNext(c, [ev |-> "quiescent", recv |-> (cons = "ready")]) /\ c' # c
+             /\ c' = CNext(c, QuiescentEv) /\ c' # c
              /\ UNCHANGED <<cfg, kind, now, lock, closed, closeCh, cancelled, wg, pendSet, hasTimer, tstate, deadline, curDur, tokS, sigS,
                             rpc, tch, apc, aid, aleft, nextId, cpc, chelp, cons, counted, cov>>
 Stuck == /\ UseMonitor /\ AtRest /\ (InFlight > 0 \/ ((cancelled \/ closeCh) /\ rpc # "done"))
-         /\ c' = CNext(c, [ev |-> "stuck", n |-> InFlight, run |-> (cancelled \/ closeCh) /\ rpc # "done"]) /\ c' # c
+         /\ c' = CNext(c, StuckEv) /\ c' # c
          /\ UNCHANGED <<cfg, kind, now, lock, closed, closeCh, cancelled, wg, pendSet, hasTimer, tstate, deadline, curDur, tokS, sigS,
                         rpc, tch, apc, aid, aleft, nextId, cpc, chelp, cons, counted, cov>>
 
